@@ -810,9 +810,13 @@ impl ErasedNode for Node {
             before computing it.  If [parent] has a single child (i.e. [node]), then
             this amounts to checking that [parent] won't be invalidated, i.e. that
             [parent]'s scope has already stabilized. */
-            Kind::BindLhsChange { .. } => child.height() > parent.created_in.height(),
-            Kind::MapRef(_) | Kind::MapWithOld(_) | Kind::Map(_) => {
-                child.height() > parent.created_in.height()
+            Kind::BindLhsChange { .. } | Kind::MapRef(_) | Kind::MapWithOld(_) | Kind::Map(_) => {
+                /* [child] may itself have been recomputed directly rather than popped off the
+                recompute heap, in which case nodes lower than it (in particular the
+                lhs-change node of [parent]'s scope) can still be waiting in the heap. So
+                also require that the heap holds nothing at or below the scope's height. */
+                let scope_height = parent.created_in.height();
+                child.height() > scope_height && scope_height < state.recompute_heap.min_height()
             }
             // | Freeze _ -> node.height > Scope.height parent.created_in
             // | If_test_change _ -> node.height > Scope.height parent.created_in
@@ -825,7 +829,11 @@ impl ErasedNode for Node {
             {[
             node.height > Scope.height parent.created_in
             ]} */
-            Kind::BindMain { lhs_change, .. } => child.height() > lhs_change.height(),
+            Kind::BindMain { lhs_change, .. } => {
+                let lhs_change_height = lhs_change.height();
+                child.height() > lhs_change_height
+                    && lhs_change_height < state.recompute_heap.min_height()
+            }
             // | Kind::If_then_else i -> node.height > i.test_change.height
             // | Join_main j -> node.height > j.lhs_change.height
         };
